@@ -47,6 +47,28 @@ func (g *gctx) do(op string) string {
 
 func (g *gctx) blk(h int64) blkDef { return g.c.blkAt(h) }
 
+// emitBlk emits the next block line: commit round / slot flags chosen here, header tokens derived
+func (g *gctx) emitBlk(t int64, toks []string) {
+	r := g.r
+	vals, _ := parseVals(strings.Join(toks, ","))
+	b := blkDef{t: t, vals: vals}
+	if r.Intn(6) == 0 {
+		b.round = int32(1 + r.Intn(2))
+	}
+	fl := make([]string, len(vals))
+	for i := range vals {
+		f := 2
+		if r.Intn(12) == 0 {
+			f = []int{1, 3}[r.Intn(2)]
+		}
+		b.flags = append(b.flags, f)
+		fl[i] = strconv.Itoa(f)
+	}
+	hash, d := g.c.blkToks(b)
+	g.do(fmt.Sprintf("blk h=%d t=%d vals=%s cr=%d cf=%s hash=%s d=%s", g.c.n()+1, t, strings.Join(toks, ","), b.round,
+		strings.Join(fl, ","), hash, d))
+}
+
 func total(b blkDef) int64 {
 	var s int64
 	for _, v := range b.vals {
@@ -132,7 +154,10 @@ func (g *gctx) genuineDV(h int64) dvFields {
 	bid2 := bid1 + 1 + int64(r.Intn(3))
 	round := int64(r.Intn(2))
 	typ := int64(1 + r.Intn(2))
-	sig := v.pk
+	sig := "z"
+	if ki, ok := keyIdx(v.pk); ok {
+		sig = fmt.Sprintf("k%d", ki)
+	}
 	return dvFields{ah: h, ar: round, at: typ, aaddr: v.addr, abid: bid1, ats: t + 5, aidx: int64(vi), asig: sig,
 		bh: h, br: round, bt: typ, baddr: v.addr, bbid: bid2, bts: t + 7, bidx: int64(vi), bsig: sig,
 		tvp: total(b), vp: v.power, t: t}
@@ -142,9 +167,9 @@ func (g *gctx) perturbDV(f dvFields) (dvFields, string) {
 	r := g.r
 	other := func(a string) string {
 		if r.Intn(3) == 0 {
-			return "x" + strings.Repeat("ab", 20)
+			return "abababab"
 		}
-		return fmt.Sprintf("k%d", r.Intn(6))
+		return kt(r.Intn(6))
 	}
 	names := []string{"a.height", "b.height", "both.height", "a.round", "b.round", "a.type", "b.type", "both.type3",
 		"a.addr", "b.addr", "both.addr", "same-block", "order", "b.nil-block", "a.ts", "b.ts", "a.idx", "b.idx",
@@ -237,8 +262,11 @@ func (g *gctx) defineLCA() string {
 	r := g.r
 	atk := []string{"lunatic", "lunatic", "equiv", "equiv", "amnesia", "same", "lunatic", "lunaticbig"}[r.Intn(8)]
 	mut := "none"
-	if r.Intn(3) == 0 {
-		mut = []string{"badsig", "fewsig", "byzdrop", "byzextra", "byzpow", "byzswap"}[r.Intn(6)]
+	if r.Intn(5) < 2 { // every single-field perturbation of the evidence
+		muts := []string{"badsig", "badsiglast", "fewsig", "flagabs", "flagnil", "sigaddr", "sigaddrnil", "sigaddr2", "cmheight",
+			"d0", "d1", "d2", "d3", "d4", "round", "cvpow", "byzdrop", "byzextra", "byzpow", "byzaddr", "byzswap", "byzone",
+			"sigaddr", "sigaddrnil", "flagnil"}
+		mut = muts[r.Intn(len(muts))]
 	}
 	common := g.pickHeight()
 	if common < 1 {
@@ -261,22 +289,38 @@ func (g *gctx) defineLCA() string {
 	}
 	b := g.blk(common)
 	tvp, t := total(b), b.t
+	// gen: genuine by construction (an unperturbed attack of a known kind): the oracle expects it to
+	// be admitted when fresh; "fwd" = genuine forward lunatic attack (conflicting block above the
+	// node's chain whose time does not exceed the latest block's)
+	gen := "0"
+	if mut == "none" && atk != "same" {
+		gen = "1"
+	}
+	if cfh > g.N {
+		cft = g.blk(g.N).t - int64(r.Intn(2))*1000000000
+		if gen == "1" {
+			gen = "fwd"
+		}
+	}
 	switch r.Intn(12) {
 	case 0:
 		tvp++
+		gen = "0"
 		mut2("lca.tvp")
 	case 1:
 		t++
+		gen = "0"
 		mut2("lca.t")
 	case 2:
 		if common > 1 {
 			common-- // timestamp / total power now belong to another height
+			gen = "0"
 			mut2("lca.common-1")
 		}
 	}
 	mutHist["lca."+atk+"."+mut]++
 	id := g.newID("l")
-	line, ok := g.complete(fmt.Sprintf("ev id=%s kind=lca common=%d cfh=%d cft=%d tvp=%d t=%d tag=%s.%s", id, common, cfh, cft, tvp, t, atk, mut))
+	line, ok := g.complete(fmt.Sprintf("ev id=%s kind=lca common=%d cfh=%d cft=%d tvp=%d t=%d tag=%s.%s gen=%s", id, common, cfh, cft, tvp, t, atk, mut, gen))
 	if !ok {
 		return ""
 	}
@@ -381,10 +425,12 @@ func genCase(r *rand.Rand, long bool) core.Case {
 		if h > 1 && r.Intn(5) == 0 {
 			switch k := r.Intn(5); {
 			case len(cur) > 1 && r.Intn(3) == 0:
+				ks := make([]int, 0, len(cur))
 				for x := range cur {
-					delete(cur, x)
-					break
+					ks = append(ks, x)
 				}
+				sort.Ints(ks)
+				delete(cur, ks[r.Intn(len(ks))])
 			case r.Intn(2) == 0:
 				cur[k] = powers[r.Intn(len(powers))]
 			default:
@@ -402,9 +448,9 @@ func genCase(r *rand.Rand, long bool) core.Case {
 			if badPk && i == 0 {
 				pk = 6 // address of key k, public key of key 6
 			}
-			toks[i] = fmt.Sprintf("k%d:%d:k%d", k, cur[k], pk)
+			toks[i] = fmt.Sprintf("%s:%d:%s", kt(k), cur[k], kt(pk))
 		}
-		g.do(fmt.Sprintf("blk t=%d vals=%s", t, strings.Join(toks, ",")))
+		g.emitBlk(t, toks)
 	}
 	h0 := 1 + r.Int63n(4)
 	if h0 > N {
@@ -509,7 +555,7 @@ func genCase(r *rand.Rand, long bool) core.Case {
 			}
 			f := g.genuineDV(h)
 			if r.Intn(12) == 0 { // a validator outside the set: the code dereferences a nil evidence
-				f.aaddr, f.baddr = "k9", "k9"
+				f.aaddr, f.baddr = kt(9), kt(9)
 				mut2("report.non-validator")
 			}
 			id := g.defineDV(f, true)
@@ -562,11 +608,11 @@ func genBacklog(r *rand.Rand) core.Case {
 	nv := 1 + r.Intn(3)
 	var toks []string
 	for k := 0; k < nv; k++ {
-		toks = append(toks, fmt.Sprintf("k%d:%d:k%d", k, []int64{1, 5, 10}[r.Intn(3)], k))
+		toks = append(toks, fmt.Sprintf("%s:%d:%s", kt(k), []int64{1, 5, 10}[r.Intn(3)], kt(k)))
 	}
 	for h := int64(1); h <= N; h++ {
 		t += []int64{1000000000, 1500000000, 2000000000}[r.Intn(3)]
-		g.do(fmt.Sprintf("blk t=%d vals=%s", t, strings.Join(toks, ",")))
+		g.emitBlk(t, toks)
 	}
 	h0 := 2 + r.Int63n(3)
 	g.do(fmt.Sprintf("init h=%d", h0))
@@ -778,7 +824,7 @@ func hostileLine(r *rand.Rand, g *gctx) string {
 	l := []string{
 		"frobnicate", "add", "add e=nosuch", "check l=nosuch,alsonot", "check", "update h=x ev=-", "update ev=-",
 		fmt.Sprintf("update h=%d ev=-", g.N+5), "grow h=0", fmt.Sprintf("grow h=%d", g.N+1), "grow h=y", "init h=1",
-		"blk t=5 vals=k1:1:k1", "report e=nosuch swap=0", "report e=d1", "pe", "pe max=z", "restart now",
+		"blk t=5 vals=k1:1:k1", "blk h=1 t=5 vals=0badc0de:1:0badc0de cr=0 cf=2 hash=00000000 d=zz", "report e=nosuch swap=0", "report e=d1", "pe", "pe max=z", "restart now",
 		"ev id=q kind=dv", "ev id=q kind=zz hash=00 sz=1 vb=1 tvp=1 t=1", "update h=1 ev=nosuch", "report e=d1 swap=2",
 	}
 	return l[r.Intn(len(l))]
